@@ -202,8 +202,8 @@ def rule_canon_reduced(ctx: Ctx) -> None:
         raise AnalysisError("canonical_form: the two elimination loops (X block, Z block) were not found")
     for l in elim:
         rs = [c for c in calls_in(l) if call_name(c) in ("tab_row_sum", "row_sum")][0]
-        guard_ne = any(isinstance(t, ast.Compare) and isinstance(t.ops[0], ast.NotEq) and norm(t.left) == norm(l.target) for i in ast.walk(l) if isinstance(i, ast.If)
-                       for t in ast.walk(i.test))
+        guard_ne = any(isinstance(t, ast.Compare) and isinstance(t.ops[0], ast.NotEq) and norm(l.target) in (norm(t.left), norm(t.comparators[0]))
+                       for i in ast.walk(l) if isinstance(i, ast.If) for t in ast.walk(i.test))
         if norm(l.iter) in full and guard_ne:
             ctx.ok("canon.reduced", m, l, what="pivot eliminated from every other row")
         else:
